@@ -107,6 +107,25 @@ def run_prop(prop, tier):
                     chk.disagree('histories:records', case, str(got)[:3000], str(want)[:3000])
         if prop == 'C20':
             run_c20_oracle(chk, hists, tmp, model, bres)
+        if chk.disagreements and not chk.failures and bres.ok:
+            # failing-input search: the correspondence is broken; look for a concrete history on which the
+            # property itself fails, over a much larger set of histories (oracles only)
+            chk.notes.append('correspondence broken: widened failing-input search over %d more histories' % (8 * n))
+            extra = [H.gen_history(R, tier) for _ in range(8 * n)]
+            reqs2, meta2 = [], []
+            for j, h in enumerate(extra):
+                df, lfs, live, outcomes = H.apply_history(h)
+                path = f'{tmp}/s.dlis'
+                st, err = call(df.write, path, output_chunk_size=2**20)
+                if st == 'ok':
+                    reqs2.append(f"dump 8192 {cps('1')} {cps('HIST')} {hexs(open(path, 'rb').read())}")
+                    meta2.append(({'index': n + j, 'history': h}, h, live))
+            for (case, h, live), rep in zip(meta2, model.ask(reqs2)):
+                if rep.startswith('ok'):
+                    recs = filegen.parse_dump(rep)
+                    oracle(prop, chk, case, h, decoded_inventory(recs), recs, live)
+            if prop == 'C20' and not chk.failures:
+                run_c20_oracle(chk, extra[:2 * n], tmp, model, bres)
     finally:
         shutil.rmtree(tmp, ignore_errors=True)
     if prop in ('C07', 'C09'):
@@ -313,7 +332,7 @@ def run_c20_oracle(chk, hists, tmp, model, bres):
                     if any(o2['out'] == 'ok' and o2['lf'] != op['lf'] and o2['kind'] == op['kind'] and o2['sn'] == op['sn']
                            for o2 in h['ops']):
                         foreign = True
-            key = 'rejected:changes-writability' + (':set-of-another-logical-file' if foreign and datas[0] == ('err', 'runtime') else '')
+            key = 'rejected:changes-writability' + (':set-of-another-logical-file' if foreign and datas[0][0] == 'err' else '')
             chk.fail(key, case, f'with the rejected calls the write is {datas[0]}, without them {datas[1][0]}')
             continue
         if datas[0][0] == 'ok':
@@ -329,7 +348,23 @@ def run_c20_oracle(chk, hists, tmp, model, bres):
         ib = [sorted(x) for x in decoded_inventory_full(filegen.parse_dump(b))]
         if ia != ib:
             diff = [(x, y) for la, lb in zip(ia, ib) for x, y in zip(la, lb) if x != y][:2]
-            chk.fail('rejected:trace', case, f'content differs from the history without the rejected calls: {str(diff)[:800]}')
+            # narrow identification of a known residue: a rejected add_origin call created its (empty) ORIGIN set
+            # before the set that holds the intended defining origin, so another origin became the defining one
+            h = case['history']
+            h2 = {'n_lf': h['n_lf'], 'ops': [o for o in h['ops'] if not (o['kind'] == 'origin' and o['out'] != 'ok')]}
+            key = 'rejected:trace'
+            try:
+                df, lfs, live, outcomes = H.apply_history(h2)
+                pth = f'{tmp}/c20_x.dlis'
+                st, err = call(df.write, pth, output_chunk_size=2**20)
+                if st == 'ok':
+                    rep = model.ask([f"dump 8192 {cps('1')} {cps('HIST')} {hexs(open(pth, 'rb').read())}"])[0]
+                    ic = [sorted(x) for x in decoded_inventory_full(filegen.parse_dump(rep))]
+                    if ic == ib:
+                        key = 'rejected:trace:rejected-add_origin-created-its-set-first'
+            except Exception:
+                pass
+            chk.fail(key, case, f'content differs from the history without the rejected calls: {str(diff)[:800]}')
 
 
 def decoded_inventory_full(recs):
